@@ -136,7 +136,11 @@ def r02_1(ctx):
             continue
         # provenance of the text: whole input (Input::Slice payload) vs a chunker document
         tr = strace(sup, n, t["args"][0], extra=("std::str::from_utf8", "core::str::from_utf8"))
-        whole = any(s[0] == "downcast" and s[1] == "Slice" for s in tr.steps)
+        # exempt only text that provably comes from a chunker document (already re-encoded);
+        # anything else is treated as derived from the whole input
+        ctr = strace(sup, n, t["args"][0], extra=("::content", "Document::"))
+        chunk_fed = bool(ctr.origin and ctr.origin[0] == "call" and (fn_of(ctr.origin[2]) or {}).get("trait") == "std::iter::Iterator" and "Chunker" in (fn_of(ctr.origin[2]) or {}).get("self_ty", ""))
+        whole = not chunk_fed
         if not whole:
             ctx.ob(f"site:{sup.body_of(n).name}:chunk-fed", True, sup.site(n), "parser fed by a chunker document (already re-encoded): exempt", trivial=True)
             continue
